@@ -148,61 +148,33 @@ func VerifC17RoundTrip() {
 		rt.Assert(false, "the writer initialises over an empty directory")
 		return
 	}
-	ts := t0
-	for k := 0; k < K; k++ {
-		if rt.Param("SAMESEC") != 0 {
-			ts += rt.U64n("gap", 11) // 0..2047 ms: the same second again, or a later one
-		} else {
-			ts = (ts/1000+1+rt.U64n("gapSec", 2))*1000 + rt.U64n("ms", 9) // a later second (one batch per second)
-		}
-		n := 1 + rt.Choice(2)
-		items := make([]*base.MetricItem, 0, n)
-		for i := 0; i < n; i++ {
-			items = append(items, &base.MetricItem{Resource: resNames[1+rt.Choice(2)], PassQps: uint64(len(verifRecs) + i)})
-		}
-		err := w.Write(ts, items)
-		rt.Assert(err == nil, "Write accepts a batch whose second is not before the previous one")
-		rt.Assert(verifDataFiles() <= int(w.maxFileAmount), "the number of metric log files never exceeds the configured maximum")
-	}
-	rt.Reach("c17rt.written")
-	// ---- crash: the last data file (CRASH=1) or its index (CRASH=2) is cut at an arbitrary byte ----
-	crash := rt.Param("CRASH")
-	lastData := ""
-	for _, f := range rt.MemFiles() {
-		if !strings.HasSuffix(f.Name, MetricIdxSuffix) && len(f.Data) > 0 {
-			lastData = f.Name // the youngest non-empty data file
-		}
-	}
-	if crash != 0 && lastData != "" {
-		name := lastData
-		if crash == 2 {
-			name += MetricIdxSuffix
-		}
-		f := rt.MemLookup(name)
-		cut := int(rt.U64n("cut", 6))
-		rt.Assume(cut <= len(f.Data))
-		f.Data = f.Data[:cut]
-		rt.Reach("c17rt.crashed")
-	}
-	kept, whole := verifRetained()
-	// required: the line is whole and (index crash) its second still has a whole index entry
-	inLast := map[int]bool{}
-	if crash == 2 && lastData != "" {
-		f := rt.MemLookup(lastData)
-		for i := 0; i < len(f.Data); i++ {
-			if i == 0 || f.Data[i-1] == '\n' {
-				inLast[int(f.Data[i])-'A'] = true
+	se, _ := NewDefaultMetricSearcher("/d", "app-metrics.log")
+	crashState, lastDataName := 0, ""
+	var query func(plain bool)
+	query = func(plain bool) {
+		kept, whole := verifRetained()
+		// required: the line is whole and (index crash) its second still has a whole index entry
+		inLast := map[int]bool{}
+		if crashState == 2 && lastDataName != "" {
+			f := rt.MemLookup(lastDataName)
+			for i := 0; i < len(f.Data); i++ {
+				if i == 0 || f.Data[i-1] == '\n' {
+					inLast[int(f.Data[i])-'A'] = true
+				}
 			}
 		}
-	}
-	indexed := verifIndexed(lastData)
-	se, _ := NewDefaultMetricSearcher("/d", "app-metrics.log")
-	for q := 0; q < Q; q++ {
+		indexed := verifIndexed(lastDataName)
 		begin := t0/1000 + rt.U64n("qb", 4)
-		byLines := rt.Bool("byLines")
+		byLines := !plain && rt.Bool("byLines")
 		end := begin + rt.U64n("qlen", 3)
-		res := resNames[rt.Choice(3)]
-		maxLines := uint32(1 + rt.Choice(3))
+		res := ""
+		if !plain {
+			res = resNames[rt.Choice(3)]
+		}
+		maxLines := uint32(1)
+		if !plain {
+			maxLines = uint32(1 + rt.Choice(3))
+		}
 		var got []*base.MetricItem
 		var err error
 		if byLines {
@@ -226,7 +198,7 @@ func VerifC17RoundTrip() {
 			req = append(req, whole[i] && !byLines && (!inLast[id] || indexed[sec]))
 		}
 		if byLines {
-			if crash == 0 {
+			if crashState == 0 {
 				min := int(maxLines)
 				if len(want) < min {
 					min = len(want)
@@ -245,6 +217,50 @@ func VerifC17RoundTrip() {
 			verifMatch(got, want, req, "time-range search")
 			rt.Reach("c17rt.byrange")
 		}
+	}
+	ts := t0
+	for k := 0; k < K; k++ {
+		if rt.Param("SAMESEC") != 0 {
+			ts += rt.U64n("gap", 11) // 0..2047 ms: the same second again, or a later one
+		} else {
+			ts = (ts/1000+1+rt.U64n("gapSec", 2))*1000 + rt.U64n("ms", 9) // a later second (one batch per second)
+		}
+		n := 1 + rt.Choice(2)
+		items := make([]*base.MetricItem, 0, n)
+		for i := 0; i < n; i++ {
+			items = append(items, &base.MetricItem{Resource: resNames[1+rt.Choice(2)], PassQps: uint64(len(verifRecs) + i)})
+		}
+		err := w.Write(ts, items)
+		rt.Assert(err == nil, "Write accepts a batch whose second is not before the previous one")
+		rt.Assert(verifDataFiles() <= int(w.maxFileAmount), "the number of metric log files never exceeds the configured maximum")
+		if rt.Param("MIX") != 0 {
+			query(true) // the same searcher is used while the writer keeps rolling and removing files (time-range queries for every resource)
+		}
+	}
+	rt.Reach("c17rt.written")
+	// ---- crash: the last data file (CRASH=1) or its index (CRASH=2) is cut at an arbitrary byte ----
+	crash := rt.Param("CRASH")
+	lastData := ""
+	for _, f := range rt.MemFiles() {
+		if !strings.HasSuffix(f.Name, MetricIdxSuffix) && len(f.Data) > 0 {
+			lastData = f.Name // the youngest non-empty data file
+		}
+	}
+	if crash != 0 && lastData != "" {
+		name := lastData
+		if crash == 2 {
+			name += MetricIdxSuffix
+		}
+		f := rt.MemLookup(name)
+		cut := int(rt.U64n("cut", 6))
+		rt.Assume(cut <= len(f.Data))
+		f.Data = f.Data[:cut]
+		rt.Reach("c17rt.crashed")
+	}
+	crashState = crash
+	lastDataName = lastData
+	for q := 0; q < Q; q++ {
+		query(false)
 	}
 	rt.Reach("c17rt.done")
 }
